@@ -14,13 +14,16 @@
 EXTENDS Naturals, Sequences, FiniteSets, TLC, Json
 
 CONSTANTS MaxLen, MaxTT, MaxDt, Export
-VARIABLES route, dt
-vars == <<route, dt>>
+VARIABLES route, dt, closed      \* closed: the route's first start is its last end (a loop, or nothing but degenerate links)
+vars == <<route, dt, closed>>
 
 Link == [id : 1..MaxLen, tt : 0..MaxTT, deg : BOOLEAN]
 Routes == UNION {{r \in [1..n -> Link] : \A i \in 1..n : r[i].id = i} : n \in 1..MaxLen}
 
-Init == route \in Routes /\ dt \in 1..MaxDt
+NonDegCount(r) == Cardinality({i \in DOMAIN r : ~r[i].deg})
+Init == /\ route \in Routes /\ dt \in 1..MaxDt /\ closed \in BOOLEAN
+        /\ (NonDegCount(route) = 0 => closed)          \* nothing but degenerate links: necessarily closed
+        /\ (closed => NonDegCount(route) # 1)          \* one real link cannot close on itself (it would be degenerate)
 Next == UNCHANGED vars
 Spec == Init /\ [][Next]_vars
 
@@ -33,7 +36,8 @@ StepLink(acc, lk) ==
 
 RECURSIVE Fold(_, _, _)
 Fold(acc, r, i) == IF i > Len(r) THEN acc ELSE Fold(StepLink(acc, r[i]), r, i + 1)
-Traverse(r, d) == Fold([left |-> d, exp |-> <<>>, rem |-> <<>>], r, 1)
+\* "if head.start == last.end: the route is consumed" - a closed route is dropped without being driven
+Traverse(r, d) == IF closed THEN [left |-> d, exp |-> <<>>, rem |-> <<>>] ELSE Fold([left |-> d, exp |-> <<>>, rem |-> <<>>], r, 1)
 
 Ids(s) == [i \in DOMAIN s |-> s[i][1]]
 NonDeg(r) == SelectSeq(r, LAMBDA lk : ~lk.deg)
@@ -46,7 +50,7 @@ TraverseOK ==
       whole == {R.exp[i][1] : i \in {i \in DOMAIN R.exp : R.exp[i][2] = "whole"}}
       split == {R.exp[i][1] : i \in {i \in DOMAIN R.exp : R.exp[i][2] = "head"}}
       joined == Ids(R.exp) \o Ids(IF split = {} THEN R.rem ELSE Tail(R.rem))
-  IN
+  IN closed \/
   \* same links in the same order; degenerate links that were skipped while time remained simply disappear
   /\ \A i \in DOMAIN joined : i > 1 => joined[i - 1] < joined[i]
   /\ {joined[i] : i \in DOMAIN joined} \cup {lk.id : lk \in {route[i] : i \in {i \in DOMAIN route : route[i].deg}}} = {route[i].id : i \in DOMAIN route}
@@ -62,5 +66,5 @@ TraverseOK ==
   /\ (NonDeg(route) # <<>>) => R.exp # <<>>
 \* with Export = TRUE every (route, step length) is printed with the model's result, to be executed in the real traverse()
 Exported ==
-  ~Export \/ PrintT(<<"TRAV", ToJson([r |-> route, d |-> dt, exp |-> Traverse(route, dt).exp, rem |-> Traverse(route, dt).rem])>>)
+  ~Export \/ PrintT(<<"TRAV", ToJson([r |-> route, d |-> dt, closed |-> closed, exp |-> Traverse(route, dt).exp, rem |-> Traverse(route, dt).rem])>>)
 =============================================================================
